@@ -10,6 +10,12 @@ use std::ops::{Deref, DerefMut};
 pub const MCAP: usize = 8;
 /// First bucket visited by `iter` / `iter_mut`.
 pub static mut ROTATION: usize = 0;
+/// Real DashMap: the guard yielded by `iter_mut` holds the WRITE lock of its shard while the loop
+/// body runs, so a concurrent `get` of that key blocks until the body is done.  The sequentialised
+/// C04 probe runs inside such a body: the model remembers which bucket is locked (address of the
+/// bucket, 0 = none) and a `get` that hits it reports "would block" instead of an observation.
+pub static mut LOCKED_BUCKET: usize = 0;
+pub static mut WOULD_BLOCK: bool = false;
 
 pub struct Inner<K, V> {
     s: [Option<(K, V)>; MCAP],
@@ -83,6 +89,11 @@ impl<'a, K, V> RefMutMulti<'a, K, V> {
 impl<'a, K, V> DerefMut for RefMut<'a, K, V> {
     fn deref_mut(&mut self) -> &mut V {
         unsafe { &mut (*self.p).1 }
+    }
+}
+impl<'a, K, V> Drop for RefMutMulti<'a, K, V> {
+    fn drop(&mut self) {
+        unsafe { LOCKED_BUCKET = 0 };
     }
 }
 impl<'a, K, V> DerefMut for RefMutMulti<'a, K, V> {
@@ -171,7 +182,9 @@ impl<'a, K, V> Iterator for IterMut<'a, K, V> {
             let j = rot(self.i);
             self.i += 1;
             if let Some(e) = &mut v.s[j] {
-                return Some(RefMutMulti { p: e as *mut (K, V), _m: PhantomData });
+                let p = e as *mut (K, V);
+                unsafe { LOCKED_BUCKET = p as usize };
+                return Some(RefMutMulti { p, _m: PhantomData });
             }
         }
         None
@@ -241,7 +254,13 @@ impl<K: PartialEq, V> DashMap<K, V> {
         let idx = self.find(k);
         if idx < MCAP {
             let v = unsafe { &*self.items.get() };
-            Some(Ref { p: v.s[idx].as_ref().unwrap() as *const (K, V), _m: PhantomData })
+            let p = v.s[idx].as_ref().unwrap() as *const (K, V);
+            if unsafe { LOCKED_BUCKET } == p as usize {
+                // the real call would block here until the iter_mut guard is released
+                unsafe { WOULD_BLOCK = true };
+                return None;
+            }
+            Some(Ref { p, _m: PhantomData })
         } else {
             None
         }
